@@ -1,0 +1,44 @@
+//! Verification hooks (cargo feature `verif-hooks`, off by default).
+//!
+//! A thread-local work counter that the solvers bump once per iteration of
+//! their main loops. A harness may set a budget; when the budget is exceeded
+//! `tick` panics with a `BudgetExceeded` payload so that a runaway search is
+//! reported deterministically instead of by a wall-clock timeout. With no
+//! budget set a tick is a counter increment and nothing else.
+
+use std::cell::Cell;
+
+/// Panic payload used when the budget is exceeded.
+#[derive(Debug)]
+pub struct BudgetExceeded(pub u64);
+
+thread_local! {
+    static TICKS: Cell<u64> = Cell::new(0);
+    static BUDGET: Cell<u64> = Cell::new(u64::MAX);
+}
+
+/// Count one unit of solver work.
+#[inline]
+pub fn tick() {
+    let n = TICKS.with(|t| {
+        let n = t.get() + 1;
+        t.set(n);
+        n
+    });
+    if n > BUDGET.with(|b| b.get()) {
+        // Disarm so that unwinding code that ticks does not panic again.
+        BUDGET.with(|b| b.set(u64::MAX));
+        std::panic::panic_any(BudgetExceeded(n));
+    }
+}
+
+/// Reset the counter and set the budget (`None` = unlimited).
+pub fn reset(budget: Option<u64>) {
+    TICKS.with(|t| t.set(0));
+    BUDGET.with(|b| b.set(budget.unwrap_or(u64::MAX)));
+}
+
+/// Number of ticks since the last `reset`.
+pub fn ticks() -> u64 {
+    TICKS.with(|t| t.get())
+}
